@@ -576,12 +576,8 @@ func resetClearsOnly(c *core.Ctx, r *core.Report, only string) {
 			continue
 		}
 		pred := t.pred
-		exits := an.PathCount(reset, func(in ssa.Instruction) an.Interval {
-			if pred(in) {
-				return an.Interval{Lo: 1, Hi: 1}
-			}
-			return an.Interval{}
-		})
+		// through the helpers Reset calls in place (`t.resetStack()`)
+		exits := an.PathCount(reset, an.InstrWeight(pred, flatDepth))
 		tot, ok := an.Total(exits, false)
 		r.Check(ok && tot.Lo >= 1, "T.Reset#"+t.name, c.Pos(reset.Pos()), "Reset sets "+t.name+" on every path", "Reset has a path that does not set "+t.name+": state of the previous iteration on this worker leaks into the next one")
 	}
